@@ -911,6 +911,155 @@ func corpusReprice() []*RepriceJS {
 	return cs
 }
 
+// ---------- destination: the Quai->Qi conversion branch of Process ----------
+
+type MintJS struct {
+	ID       int    `json:"id"`
+	Kind     string `json:"kind"`
+	Value    string `json:"value"`
+	Gas      uint64 `json:"gas"`      // etx gas
+	PoolGas  uint64 `json:"pool_gas"` // block gas pool
+	BlockNum uint64 `json:"block_num"`
+	PTN      uint64 `json:"ptn"`
+	Index    bool   `json:"index"` // IndexAddressUtxos
+}
+
+func runMint(c MintJS, cw *hlib.CaseWriter, rep *hlib.Report) {
+	loc := common.Location{0, 0}
+	block := types.EmptyWorkObject(common.ZONE_CTX)
+	block.WorkObjectHeader().SetNumber(new(big.Int).SetUint64(c.BlockNum))
+	block.WorkObjectHeader().SetPrimeTerminusNumber(new(big.Int).SetUint64(c.PTN))
+	block.WorkObjectHeader().SetLocation(loc)
+	to := toAddr(true, c.ID)
+	var oh common.Hash
+	oh[0], oh[30], oh[31] = 0xc3, byte(c.ID>>8), byte(c.ID)
+	value := bi(c.Value)
+	etx := types.NewTx(&types.ExternalTx{OriginatingTxHash: oh, ETXIndex: 0, Gas: c.Gas, To: &to, Value: value,
+		Sender: toAddr(false, c.ID), EtxType: types.ConversionType})
+	gp := new(types.GasPool).AddGas(c.PoolGas)
+	usedGas := new(uint64)
+	db := rawdb.NewMemoryDatabase(logger)
+	batch := db.NewBatch()
+	supply := big.NewInt(0)
+	ucd := &core.UtxosCreatedDeleted{AddressOutpointsToAddMap: map[[20]byte][]*types.OutpointAndDenomination{}}
+	p := core.NewVerifC20StateProcessor(&params.ChainConfig{ChainID: big.NewInt(1), Location: loc, IndexAddressUtxos: c.Index}, logger)
+	out := &core.VerifC20MintOut{}
+	var err error
+	panicked := ""
+	func() {
+		defer func() {
+			if r := recover(); r != nil {
+				panicked = fmt.Sprint(r)
+			}
+		}()
+		_, _, _, _, _, _, _, _, _, err = core.VerifMintQuaiToQi(p, block, common.ZONE_CTX, etx, etx, gp, usedGas, batch, supply, ucd, out)
+	}()
+	rep.Evaluations++
+	if panicked != "" {
+		rep.Fail("mint:panic", "the Quai->Qi conversion branch of Process panics: "+panicked, c)
+		return
+	}
+	if err != nil {
+		// only the block gas pool can make the branch fail
+		if c.PoolGas >= c.Gas {
+			rep.Fail("mint:unexpected-error", "branch returned "+err.Error()+" although the gas pool covers the ETX gas", c)
+		}
+		rep.Count("mint:gas-pool-exhausted")
+		return
+	}
+	rep.TracesValidated++
+	if !out.Reached || len(out.Receipts) != 1 {
+		rep.Fail("mint:no-single-receipt", fmt.Sprintf("%d receipts", len(out.Receipts)), c)
+		return
+	}
+	rc := out.Receipts[0]
+	created := len(ucd.UtxosCreatedKeys)
+	if err := batch.Write(); err != nil {
+		panic(err)
+	}
+	// what was really written: denominations, lock, owner
+	minted := big.NewInt(0)
+	lockWant := new(big.Int).SetUint64(c.BlockNum + params.ConversionLockPeriod)
+	for i := 0; i < created; i++ {
+		u := rawdb.GetUTXO(db, etx.Hash(), uint16(i))
+		if u == nil {
+			rep.Fail("mint:utxo-missing", fmt.Sprintf("output %d reported created but not in the batch", i), c)
+			return
+		}
+		minted.Add(minted, types.Denominations[u.Denomination])
+		if u.Lock == nil || u.Lock.Cmp(lockWant) != 0 {
+			rep.Fail("mint:wrong-lock", fmt.Sprintf("output %d locked until %v, want block+ConversionLockPeriod = %s", i, u.Lock, lockWant), c)
+		}
+		if string(u.Address) != string(to.Bytes()) {
+			rep.Fail("mint:wrong-owner", fmt.Sprintf("output %d not owned by the ETX recipient", i), c)
+		}
+	}
+	if rawdb.GetUTXO(db, etx.Hash(), uint16(created)) != nil && created < 65535 {
+		rep.Fail("mint:unreported-utxo", "an output beyond the reported ones exists", c)
+	}
+	logTotal := big.NewInt(0)
+	if len(rc.Logs) == 1 {
+		logTotal = new(big.Int).SetBytes(rc.Logs[0].Data)
+	}
+	prekick := c.PTN < params.ControllerKickInBlock
+	switch {
+	case prekick:
+		rep.Count("mint:before-controller-kick-in")
+		if created != 0 || *usedGas != 0 || rc.Status != types.ReceiptStatusFailed {
+			rep.Fail("mint:pre-kick-in-not-inert", "conversion before the controller kick-in block is not a failed no-op", c)
+		}
+		return
+	case c.Gas < params.TxGas:
+		rep.Count("mint:etx-gas-below-txgas")
+		if created != 0 || rc.Status != types.ReceiptStatusFailed || *usedGas != c.Gas {
+			rep.Fail("mint:low-gas-not-inert", "conversion with less than TxGas is not a failed no-op charging its gas", c)
+		}
+		return
+	}
+	ok := rc.Status == types.ReceiptStatusLocked
+	gasLeft := c.Gas - params.TxGas - uint64(created)*params.CallValueTransferGas
+	cw.Add(fmt.Sprintf("(%d%%N, CMint %s %d %s %d %d %s)", c.ID, z(value), c.Gas-params.TxGas, z(minted), created, gasLeft, hlib.CoqBool(ok)), c)
+	// monitors
+	if minted.Cmp(value) > 0 {
+		rep.Fail("mint:minted-more-than-value", fmt.Sprintf("minted %s for a conversion of %s", minted, value), c)
+	}
+	if ok && minted.Cmp(value) != 0 && value.Cmp(denomGuard()) < 0 {
+		rep.Fail("mint:locked-status-but-value-lost", fmt.Sprintf("status Locked but minted %s of %s", minted, value), c)
+	}
+	if !ok && rc.Status != types.ReceiptStatusFailed {
+		rep.Fail("mint:status", fmt.Sprintf("unexpected receipt status %d", rc.Status), c)
+	}
+	if supply.Cmp(minted) != 0 || logTotal.Cmp(minted) != 0 {
+		rep.Fail("mint:accounting", fmt.Sprintf("supplyAddedQi %s / logged total %s differ from the minted outputs %s", supply, logTotal, minted), c)
+	}
+	if *usedGas != params.TxGas+uint64(created)*params.CallValueTransferGas || out.TotalEtxGas != *usedGas || gp.Gas() != c.PoolGas-*usedGas {
+		rep.Fail("mint:gas-accounting", fmt.Sprintf("usedGas %d totalEtxGas %d pool %d for %d outputs", *usedGas, out.TotalEtxGas, gp.Gas(), created), c)
+	}
+	wantUsed := *usedGas
+	if !ok {
+		wantUsed = c.Gas
+	}
+	if rc.GasUsed != wantUsed {
+		rep.Fail("mint:receipt-gas", fmt.Sprintf("receipt reports %d gas", rc.GasUsed), c)
+	}
+	// the loss is only what gas (or the output index) did not pay for
+	if !ok {
+		short := c.Gas-params.TxGas < uint64(created+1)*params.CallValueTransferGas
+		if !short && created < 65535 {
+			rep.Fail("mint:lost-without-shortage", fmt.Sprintf("%d outputs minted, gas would pay for more", created), c)
+		}
+		rep.Count("mint:partial")
+	} else {
+		rep.Count("mint:complete")
+	}
+	if c.Index && len(ucd.AddressOutpointsToAddMap[to.Bytes20()]) != created {
+		rep.Fail("mint:index", "address outpoint index does not list every created output", c)
+	}
+	if created > 1 {
+		rep.Nontrivial(fmt.Sprintf("mint/%s/%d/%v", c.Value, created, ok))
+	}
+}
+
 type anyCase struct {
 	Kind string `json:"kind"`
 }
@@ -945,6 +1094,10 @@ func main() {
 			var c DenJS
 			hlib.ReadReplayCase(f.Replay, &c)
 			runDen(c, cw, rep)
+		case "mint":
+			var c MintJS
+			hlib.ReadReplayCase(f.Replay, &c)
+			runMint(c, cw, rep)
 		case "reprice":
 			var c RepriceJS
 			hlib.ReadReplayCase(f.Replay, &c)
@@ -1006,7 +1159,61 @@ func main() {
 		}
 	}
 
+	// ---- corpus: destination mint ----
+	kick := params.ControllerKickInBlock
+	for _, m := range []MintJS{
+		{Value: "0", Gas: 100000}, {Value: "1", Gas: 21000}, {Value: "1", Gas: 20999}, {Value: "1", Gas: 29999}, {Value: "1", Gas: 30000},
+		{Value: "123456789", Gas: 21000 + 26*9000}, {Value: "123456789", Gas: 21000 + 27*9000}, {Value: "123456789", Gas: 21000 + 27*9000 + 8999},
+		{Value: "123456789", Gas: 21000 + 27*9000, PTN: kick - 1}, {Value: "999999999", Gas: 5000000, Index: true},
+		{Value: "70000000000000", Gas: 21000 + 70000*9000, PoolGas: 2000000000}, // output index limit: 70000 pieces of the top denomination
+		{Value: "5000000000", Gas: 1000000, PoolGas: 50000},                      // block gas pool runs out
+	} {
+		m.ID, m.Kind = next(), "mint"
+		if m.PTN == 0 {
+			m.PTN = kick + 1000
+		}
+		if m.PoolGas == 0 {
+			m.PoolGas = 50000000
+		}
+		m.BlockNum = 3000000
+		runMint(m, cw, rep)
+	}
+
 	// ---- random ----
+	for i := 0; i < f.N/2+20; i++ {
+		r := rng.Fork()
+		m := MintJS{ID: next(), Kind: "mint", PTN: params.ControllerKickInBlock + uint64(r.Intn(2000000)), BlockNum: uint64(1 + r.Intn(40000000)), PoolGas: 50000000, Index: r.Bool()}
+		var v *big.Int
+		switch r.Pick(4, 3, 2, 1) {
+		case 0:
+			v = new(big.Int).SetUint64(r.Next() % 10000000000)
+		case 1:
+			v = new(big.Int).SetUint64(r.Next() % 200000)
+		case 2:
+			v = mul(types.Denominations[uint8(r.Intn(types.MaxDenomination+1))], int64(1+r.Intn(30)))
+		default:
+			v = new(big.Int).SetUint64(r.Next() % 400000000000)
+		}
+		m.Value = v.String()
+		need := uint64(0)
+		for _, cnt := range misc.FindMinDenominations(v) {
+			need += cnt
+		}
+		switch r.Pick(4, 3, 2, 1) {
+		case 0:
+			m.Gas = params.TxGas + need*params.CallValueTransferGas + uint64(r.Intn(20000))
+		case 1: // too small to mint every denomination
+			m.Gas = params.TxGas + uint64(r.Intn(int(need*params.CallValueTransferGas+1)))
+		case 2:
+			m.Gas = params.TxGas + need*params.CallValueTransferGas - uint64(r.Intn(2))
+		default:
+			m.Gas = uint64(r.Intn(30000))
+		}
+		if r.Chance(3) {
+			m.PTN = uint64(r.Intn(int(params.ControllerKickInBlock)))
+		}
+		runMint(m, cw, rep)
+	}
 	nRep := f.N
 	for i := 0; i < nRep; i++ {
 		r := rng.Fork()
